@@ -254,6 +254,7 @@ func runStatement(store storage.Store, text string, chanSize, bulkSize int) (res
 // ---- query generation ----
 
 type qgen struct {
+	eqOnly bool // HAVING comparisons are equalities only (statements over stores that hold blank nodes)
 	r    *rng
 	g    *storeGen
 	mode string
@@ -985,6 +986,10 @@ func (q *qgen) havingExpr(outs []string, depth int) string {
 	cmp := func() string {
 		b := outs[r.intn(len(outs))]
 		op := []string{"=", "<", ">"}[r.intn(3)]
+		if q.eqOnly {
+			// blank nodes carry random UUIDs as IDs: how they compare with other strings is not defined
+			op = "="
+		}
 		switch r.intn(9) {
 		case 0:
 			return fmt.Sprintf("%s %s %s", b, op, outs[r.intn(len(outs))])
